@@ -57,6 +57,26 @@ CHECKS = {
             "Atom semantics are taken from fselect itself (C02 checks them); complement relative to the unfiltered "
             "listing; only always-present columns.",
             "DESIGN.md 4 C03"),
+    "C05": ("exploration",
+            "property-based testing (Hypothesis): generated trees with ties x key lists; permutation (multiset) "
+            "round-trip against the unordered query and a typed pairwise sortedness invariant; the wall clock is a "
+            "generated input (LD_PRELOAD clock shim)",
+            "For each generated (tree, select list, WHERE, 1..3 keys with directions, positional or explicit, "
+            "selected or not) the ordered rows must be a permutation of the unordered rows and every consecutive pair "
+            "must be non-decreasing under integers-numeric / dates-chronological / text-bytewise comparison, with "
+            "desc reversed per key. Both directions (nothing lost or invented, order correct) are checked.",
+            "Key cells come from a separate unordered run of the same binary joined on path; ties unordered; "
+            "negative/fractional keys and keys starting with a literal are outside the generated domain.",
+            "DESIGN.md 4 C05"),
+    "C06": ("exploration",
+            "property-based testing (Hypothesis) with per-pair exhaustive enumeration of N in 1..M+2; metamorphic "
+            "oracle against the unlimited result of the same query",
+            "For each generated (tree, query) pair every N in 1..M+2, `limit 0` and no limit are run: exact row "
+            "count min(N, M), sub-multiset of the unlimited rows, and with ORDER BY the typed key sequence must equal "
+            "the first N keys of the sorted unlimited result (ties at the cut may resolve either way); archives with "
+            "members larger and smaller than every file, several roots, bfs/dfs, WHERE.",
+            "The unlimited output of the same binary is the reference (its own correctness is C01/C02/C05/C19).",
+            "DESIGN.md 4 C06"),
 }
 
 PENDING = {}
